@@ -1,6 +1,7 @@
 CONSTANT MaxLines = 3
 CONSTANT SampleAbove = 3
 CONSTANT SampleOneIn = 1
+CONSTANT PoolSel = "main"
 CONSTANT ExecMode = "canon"
 CONSTANT CompileMode = "outerfirst"
 INIT Init
